@@ -36,6 +36,12 @@ class Monitor:
             self.s.line("1;255;0;0;17;2.0")
         self.eff = R.spec_protocol(cfg.get("version"))  # model: effective rules
         self.reports = cfg.get("reports", REPORTS)
+        # another gateway object lives in the same process, under the newest protocol, and handles every
+        # message type there is before each of our steps: gateways must not share what they learned
+        self.neighbour = None
+        if cfg.get("neighbour"):
+            self.neighbour = Session("2.2.0", reset_modules=False)
+            self.neighbour.line("1;255;0;0;17;2.2")
         self.nontrivial = False
         self.last_desc = None
 
@@ -47,6 +53,7 @@ class Monitor:
             evs.append(["gwpres", r])
         evs.append(["line", [2, 255, 0, 0, 17, "2.0"]])
         evs.append(["line", [1, 3, 1, 0, 2, "v"]])
+        evs.append(["line", [0, 3, 0, 0, 3, "gw child"]])  # a child presented on the gateway node itself
         for p in PROBES:
             evs.append(["probe", p])
         return evs
@@ -56,7 +63,12 @@ class Monitor:
         viols = []
 
         def bad(k, what):
-            viols.append((f"C05|{k}", f"{ev}: {what}", None))
+            viols.append((f"C05|{k}", f"{ev}{' (a second gateway under 2.2 is active in the process)' if self.neighbour else ''}: {what}", None))
+
+        if self.neighbour is not None:
+            for t in (15, 18, 22, 29, 32):
+                self.neighbour.line(f"1;255;3;0;{t};0")
+            self.neighbour.line("1;255;4;0;0;x")
 
         self.nontrivial = False
         if ev[0] in ("reply", "gwpres"):
@@ -101,7 +113,7 @@ class Monitor:
         return viols
 
     def key(self):
-        return (canon_gateway(self.s.gateway), self.eff)
+        return (canon_gateway(self.s.gateway), self.eff, canon_gateway(self.neighbour.gateway) if self.neighbour else None)
 
 
 def make(cfg):
@@ -239,6 +251,7 @@ def run(ctx: core.Ctx) -> core.Report:
     viols += [core.Violation(k, w, rep) for r in eres for k, w, rep in r]
     depth = 4 if ctx.quick else 5
     cfgs = [{"version": None}, {"version": "2.1"}] if ctx.quick else [{"version": None}, {"version": "1.5"}, {"version": "2.0"}, {"version": "2.2"}]
+    cfgs += [{"version": None, "neighbour": True, "reports": ["1.5.0", "2.0.0", "junk"]}]
     res = bfs.search(ctx, MOD, cfgs, max_depth=depth)
     cov = {
         "states": res["states"],
